@@ -67,3 +67,27 @@ package resources
 //@ trusted
 //@ modifies ghost(lastStoreTerm, recv)
 //@ ensures ghost(lastStoreTerm, recv) == shardMetadata.Term
+
+// Swap is a compare-and-set on the version the caller loaded: when the status has moved
+// on since (a shard controller stored a new term in between), nothing is stored or
+// published and the caller is told so — a configuration change computed from a stale
+// status can never overwrite a newer term.
+//
+//@ func status.Swap(s, newStatus, version) (swapped)
+//@ property C05 C18
+//@ requires s.metadata != nil && s.Logger != nil
+//@ ensures old(s.currentVersionID) != version ==> !swapped && s.current == old(s.current) && s.currentVersionID == old(s.currentVersionID)
+//@ ensures swapped ==> old(s.currentVersionID) == version
+//@ modifies *
+
+//@ func status.Swap$1
+//@ property C05
+//@ requires s != nil && s.metadata != nil
+//@ assert at call Store#0: cs == newStatus && expectedVersion == s.currentVersionID
+//@ ensures result == nil ==> s.current == newStatus
+//@ modifies s.current, s.currentVersionID
+
+//@ func status.Swap$2
+//@ property C05
+//@ requires s != nil && s.Logger != nil
+//@ modifies nothing
